@@ -1,6 +1,6 @@
 --------------------------- MODULE MacroFamilies ---------------------------
 (* C09/C19: the closed, enumerated input families of Macro.tla (DESIGN 5 C09).
-   A case is [fam, id, defs, inv, want]: macro definitions, the text that is
+   A case is [fam, id, defs, inv, want, tag]: macro definitions, the text that is
    macro-replaced (source items = spelling + the white space written before
    it), and for the standard's own examples the result 6.10.3.5 prints.
    Every family is addressed by index (NCasesOf / CaseAt, mixed radix), never
@@ -23,7 +23,9 @@ MacroDef(name, fun, params, va, body) == [name |-> name, fun |-> fun, params |->
 Obj(name, body) == MacroDef(name, FALSE, <<>>, FALSE, body)
 Fun(name, params, body) == MacroDef(name, TRUE, params, FALSE, body)
 FunV(name, params, body) == MacroDef(name, TRUE, params, TRUE, body)
-Case(fam, id, defs, inv, want) == [fam |-> fam, id |-> id, defs |-> defs, inv |-> Src(inv), want |-> want]
+(* tag: the root-cause class of the case (newer families), used in finding signatures *)
+CaseT(fam, id, defs, inv, want, tag) == [fam |-> fam, id |-> id, defs |-> defs, inv |-> Src(inv), want |-> want, tag |-> tag]
+Case(fam, id, defs, inv, want) == CaseT(fam, id, defs, inv, want, "")
 
 JoinSp(ss) == FoldLeft(LAMBDA a, i : IF a = "" THEN ss[i] ELSE a \o " " \o ss[i], "", [i \in 1..Len(ss) |-> i])
 (* text s followed by token b: without white space when the whole still lexes to the tokens of s and then b *)
@@ -346,15 +348,93 @@ F12Invs == <<"NEXT(N1)", "F(AB)", "NEXT2(X1)", "counter", "checked_add(1,2)", "S
 F12Case(i) == Case("F12", i, F12Defs, F12Invs[i], "")
 NF12 == Len(F12Invs)
 
-(* FS: the small families that are always run completely (F5, F9, F10), enumerated by one TLC run *)
-NFS == NF5 + NF9 + NF10 + NF11 + NF12
+(* ---- F13: WHITE SPACE AROUND TOKENS THAT MACRO REPLACEMENT MAKES, observed through # one macro level up
+   (6.10.3.2p2: each occurrence of white space between the argument's tokens becomes one space — and
+   nothing else does).  T is every kind of item that is replaced by something new: the dynamic macros,
+   a ## result (first token of its expansion, and in the middle of one), a # result (likewise), an
+   object-like and a function-like expansion, an argument with blanks inside its parentheses, items that
+   vanish (empty object-like / function-like expansion, empty argument first / last in a replacement list),
+   dynamic macros inside replacement lists and as operands.  T is written between a token A and a token B,
+   each time with and without a blank before it and after it; the text is stringized through XS, and
+   (without blanks) also left as it is. *)
+F13Defs == <<FunV("S", <<>>, "#__VA_ARGS__"), FunV("XS", <<>>, "S(__VA_ARGS__)"),       \* (variadic: a replacement may hold a comma)
+             Fun("CAT", <<"a", "b">>, "a##b"), Fun("PQ", <<"a", "b">>, "p a##b q"),
+             Fun("QS", <<"x">>, "q #x r"), Fun("ID", <<"x">>, "x"), Obj("E", ""), Fun("N", <<"x">>, ""), Obj("OBJ", "o"),
+             Fun("G", <<"x">>, "g x"), Fun("H2", <<"x">>, "x h"), Obj("LN", "l __LINE__"), Obj("CT", "__COUNTER__ c"),
+             Fun("P2", <<"a", "b">>, "p+a##b"), Fun("Q2", <<"x">>, "q+#x"), Fun("PS", <<"a", "b">>, "p a## #b q"),
+             FunV("GC", <<"x">>, "g , ## __VA_ARGS__ h"), FunV("VO", <<"x">>, "v __VA_OPT__(+ x) w")>>
+F13T == <<"__LINE__", "__COUNTER__", "__FILE__", "CAT(c,d)", "PQ(c,d)", "S(k)", "QS(k)", "OBJ", "ID(c)", "ID( c )", "E", "N(c)",
+          "G()", "H2()", "G(c)", "LN", "CT", "ID(CAT(c,d))", "ID(__LINE__)", "CAT(c,__LINE__)", "CAT(__COUNTER__,d)", "ID()",
+          "P2(c,d)", "Q2(k)", "PQ(,d)", "PQ(c,)", "PQ(,)", "PS(c,k)", "PS(,k)", "GC(1,2)", "GC(1, 2)", "GC(1)", "VO(1,2)", "VO(1)">>
+F13Tag == <<"dyn", "dyn", "dyn", "paste-first", "paste-param", "strz-first", "strz-mid", "obj", "arg", "arg", "vanish", "vanish",
+            "vanish", "vanish", "arg", "dyn", "dyn", "paste-first", "dyn", "paste-first", "paste-first", "vanish",
+            "paste-mid", "strz-mid", "placemarker", "placemarker", "placemarker", "placemarker", "placemarker", "gnucomma", "gnucomma", "gnucomma", "vaopt", "vaopt">>
+ASSUME Len(F13Tag) = Len(F13T)
+F13A == <<"]", "+">>          \* (punctuators: every A, T, B lexes apart also when nothing is written between them)
+F13B == <<"", "[", "+">>
+F13Sep == <<"", " ">>
+F13NStr == Len(F13A) * 2 * Len(F13T) * 2 * Len(F13B)
+F13Text(j) == LET b == F13B[(j % Len(F13B)) + 1]
+                  s2 == F13Sep[((j \div Len(F13B)) % 2) + 1]
+                  t == F13T[((j \div (2 * Len(F13B))) % Len(F13T)) + 1]
+                  s1 == F13Sep[((j \div (2 * Len(F13B) * Len(F13T))) % 2) + 1]
+                  a == F13A[(j \div (4 * Len(F13B) * Len(F13T))) + 1]
+              IN a \o s1 \o t \o s2 \o b
+F13TagOf(j) == F13Tag[((j \div (2 * Len(F13B))) % Len(F13T)) + 1]
+F13Case(i) == LET j == i - 1 IN
+              IF j < F13NStr THEN CaseT("F13", i, F13Defs, "XS(" \o F13Text(j) \o ")", "", F13TagOf(j))
+              ELSE LET k == j - F13NStr        \* not stringized, nothing written between A, T and B
+                       b == F13B[(k % Len(F13B)) + 1]
+                       t == F13T[((k \div Len(F13B)) % Len(F13T)) + 1]
+                       a == F13A[(k \div (Len(F13B) * Len(F13T))) + 1]
+                   IN CaseT("F13", i, F13Defs, "{" \o a \o t \o b \o "}", "", F13Tag[((k \div Len(F13B)) % Len(F13T)) + 1])
+NF13 == F13NStr + Len(F13A) * Len(F13T) * Len(F13B)
+
+(* ---- F14: # applied to the pp-token category "other" (6.4p1): a backslash that is not part of a string
+   literal or character constant is copied as it is (6.10.3.2p2 inserts a \ only INSIDE those), alone and
+   next to literals that do need the escapes; the last four give no valid string literal (undefined) *)
+F14Args == <<"\\n", "\\\\", "a\\tb", "\\x41", "\\0", ": \\n", "\\n \"\\n\" '\\\\' \\t", "(\\n)", "\\", "\\q", "\\ n", "x\\">>
+F14Case(i) == LET j == i - 1
+                  a == F14Args[(j \div 2) + 1]
+              IN CaseT("F14", i, <<Fun("S", <<"x">>, "#x"), Fun("XS", <<"x">>, "S(x)")>>,
+                       IF j % 2 = 0 THEN "S(" \o a \o ")" ELSE "XS(1 " \o a \o " + " \o a \o ")", "", "strz-backslash")
+NF14 == 2 * Len(F14Args)
+
+(* ---- F15: macro replacement that PRODUCES a `#` first on a line, followed by every directive name
+   (6.10.3.4p3: "the resulting completely macro-replaced preprocessing token sequence is not processed as a
+   preprocessing directive even if it resembles one").  The # comes from an object-like macro, a
+   function-like macro (through the object-like one: a # in its own list must precede a parameter), an argument, a replacement list that holds the whole would-be directive, or is
+   written in the source behind an expansion to nothing; the line stands at the top level, inside an
+   argument that is stringized, and inside an argument that is not.  X is not a macro, Y is. *)
+F15Tails == <<"define X 1", "undef Y", "include \"q.h\"", "if 0", "ifdef X", "ifndef Y", "else", "elif 1", "endif", "line 77",
+              "pragma once", "error e", "", "7 \"f.c\"", "foo">>
+F15Starts == <<"H", "HF()", "ID(#)", "HT", "E #">>
+F15Case(i) == LET j == i - 1
+                  ctx == j % 3
+                  st == F15Starts[((j \div 3) % Len(F15Starts)) + 1]
+                  tl == F15Tails[(j \div (3 * Len(F15Starts))) + 1]
+                  line == IF st = "HT" THEN "HT" ELSE IF tl = "" THEN st ELSE st \o " " \o tl
+              IN CaseT("F15", i, <<Obj("H", "#"), Fun("HF", <<>>, "H"), Fun("ID", <<"x">>, "x"), Obj("HT", "# " \o tl), Obj("E", ""),
+                                  Fun("S", <<"x">>, "#x"), Fun("XS", <<"x">>, "S(x)"), Obj("Y", "y")>>,
+                      CASE ctx = 0 -> "\n" \o line \o "\nX Y"
+                        [] ctx = 1 -> "XS(\n" \o line \o "\nX Y)"
+                        [] OTHER -> "ID(a\n" \o line \o "\nX Y)", "", "hash-first-on-line")
+NF15 == 3 * Len(F15Starts) * Len(F15Tails)
+
+(* FS: the small families that are always run completely, enumerated by one TLC run;
+   FD: the same for the two families with dynamic macros (one order of argument pre-expansion only) *)
+NFS == NF5 + NF9 + NF10 + NF11 + NF12 + NF14 + NF15
 FSCase(i) == IF i <= NF5 THEN F5Case(i) ELSE IF i <= NF5 + NF9 THEN F9Case(i - NF5)
              ELSE IF i <= NF5 + NF9 + NF10 THEN F10Case(i - NF5 - NF9)
              ELSE IF i <= NF5 + NF9 + NF10 + NF11 THEN F11Case(i - NF5 - NF9 - NF10)
-             ELSE F12Case(i - NF5 - NF9 - NF10 - NF11)
+             ELSE IF i <= NF5 + NF9 + NF10 + NF11 + NF12 THEN F12Case(i - NF5 - NF9 - NF10 - NF11)
+             ELSE IF i <= NF5 + NF9 + NF10 + NF11 + NF12 + NF14 THEN F14Case(i - NF5 - NF9 - NF10 - NF11 - NF12)
+             ELSE F15Case(i - NF5 - NF9 - NF10 - NF11 - NF12 - NF14)
+NFD == NF6 + NF13
+FDCase(i) == IF i <= NF6 THEN F6Case(i) ELSE F13Case(i - NF6)
 
 NCasesOf(f) == CASE f = "F1" -> NF1 [] f = "F2" -> NF2 [] f = "F3" -> NF3 [] f = "F4" -> NF4
-                 [] f = "F5" -> NF5 [] f = "F6" -> NF6 [] f = "F7" -> NF7 [] f = "F8" -> NF8 [] f = "F9" -> NF9 [] f = "F10" -> NF10 [] f = "F11" -> NF11 [] f = "F12" -> NF12 [] f = "P" -> NP [] f = "PT" -> NPT [] f = "PS" -> NPS [] f = "FS" -> NFS
+                 [] f = "F5" -> NF5 [] f = "F6" -> NF6 [] f = "F7" -> NF7 [] f = "F8" -> NF8 [] f = "F9" -> NF9 [] f = "F10" -> NF10 [] f = "F11" -> NF11 [] f = "F12" -> NF12 [] f = "F13" -> NF13 [] f = "F14" -> NF14 [] f = "F15" -> NF15 [] f = "FD" -> NFD [] f = "P" -> NP [] f = "PT" -> NPT [] f = "PS" -> NPS [] f = "FS" -> NFS
 CaseAt(f, i) == CASE f = "F1" -> F1Case(i) [] f = "F2" -> F2Case(i) [] f = "F3" -> F3Case(i) [] f = "F4" -> F4Case(i)
-                  [] f = "F5" -> F5Case(i) [] f = "F6" -> F6Case(i) [] f = "F7" -> F7Case(i) [] f = "F8" -> F8Case(i) [] f = "F9" -> F9Case(i) [] f = "F10" -> F10Case(i) [] f = "F11" -> F11Case(i) [] f = "F12" -> F12Case(i) [] f = "P" -> PCase(i) [] f = "PT" -> PTCase(i) [] f = "PS" -> PSCase(i) [] f = "FS" -> FSCase(i)
+                  [] f = "F5" -> F5Case(i) [] f = "F6" -> F6Case(i) [] f = "F7" -> F7Case(i) [] f = "F8" -> F8Case(i) [] f = "F9" -> F9Case(i) [] f = "F10" -> F10Case(i) [] f = "F11" -> F11Case(i) [] f = "F12" -> F12Case(i) [] f = "F13" -> F13Case(i) [] f = "F14" -> F14Case(i) [] f = "F15" -> F15Case(i) [] f = "FD" -> FDCase(i) [] f = "P" -> PCase(i) [] f = "PT" -> PTCase(i) [] f = "PS" -> PSCase(i) [] f = "FS" -> FSCase(i)
 =============================================================================
